@@ -9,7 +9,7 @@ import logging
 
 from .. import core
 from ..explore import Stats, explore, run_vector
-from ..fakeserial import FakePort, LegacyBoard, Profile
+from ..fakeserial import PYSERIAL_READ_FAULTS, PYSERIAL_WRITE_FAULTS, FakePort, LegacyBoard, Profile
 
 PROPERTY = "C07"
 MAXLAT = 100            # empty reads a conforming board may put before each line
@@ -18,7 +18,8 @@ MAXLAT = 100            # empty reads a conforming board may put before each lin
 EXCS = ("SerialException", "PortNotOpenError", "SerialTimeoutException", "OSError",
         "RuntimeError", "OSError_EAGAIN",
         "InterruptedError", "BrokenPipeError")
-PROFILE = Profile(write_exc=EXCS, read_exc=EXCS, latency=(0, 1, MAXLAT, MAXLAT + 1),
+# ... and each fault pyserial's own read()/write() can raise, with the class and text pyserial uses
+PROFILE = Profile(write_exc=EXCS + PYSERIAL_WRITE_FAULTS, read_exc=EXCS + PYSERIAL_READ_FAULTS, latency=(0, 1, MAXLAT, MAXLAT + 1),
                   content=("err",), silent=True, read_window=3, late={MAXLAT, MAXLAT + 1})
 # sequences: conforming latencies plus the cheap faults
 SEQ_PROFILE = Profile(write_exc=("SerialException",), read_exc=("SerialException", "OSError"),
@@ -325,6 +326,25 @@ def run(ctx):
             jobs.append(((("command", spelt, False), other + (True,)), 2, "seq", acking))
             jobs.append(((other + (False,), ("command", spelt, True), other + (True,)), 1, "seq",
                          acking))
+    # ordinary queries beyond the handful the model board knows - real ones of later 2.x firmware
+    # (QE, QN, QR, QU) and names that merely resemble a documented no-OK name (a longer name, a
+    # name with a blank or a punctuation mark in it, a shorter one): the first comma-separated
+    # field, trimmed, is the name, and only the seven documented names go without an OK
+    looks = ["QE", "QN", "QR", "QU"]
+    for base in ("V", "QM", "QG", "PI", "I", "A", "MR"):
+        looks += [base + tail for tail in (" 1", ".2", ":0", "-B", "X", "1", "_x", ";", "\t1", "?")]
+        looks += ["X" + base, base + base, base.lower() + " x"]
+        if len(base) > 1:
+            looks += [base[:-1], base[1:]]
+    looks = list(dict.fromkeys(n for n in looks
+                               if n.strip().upper() not in ("V", "QM", "QG", "PI", "I", "A", "MR")))
+    known = {"extra_queries": looks}
+    for name in looks:
+        for spelt in (name + "\r", name + ",3\r"):
+            jobs.append(((("query", spelt, True),), 1, "single", known))
+            jobs.append(((("query", spelt, False), ("query", "QB\r", True)), 1, "seq", known))
+            jobs.append(((("query", "V\r", True), ("query", spelt, False),
+                          ("query", "QM\r", True)), 0, "seq", known))
     # long sessions: dozens of requests on one port (a counter, a buffer, a drift that only
     # shows after many exchanges), every single deviation at every point of the session
     steady = [op for op in ALPHABET if op[1].strip() != "RB"]
